@@ -109,7 +109,9 @@ def render(f, selfref_key=None) -> str:
         return json.dumps(out, indent=1)
     body = dictIO.NativeFormatter().to_string(c)
     lines = [f"#include '{inc}'" for inc in f["includes"]]
-    return "\n".join(lines) + ("\n" if lines else "") + body
+    # a line comment and a block comment per native file (exercise comments on/off through the include chain)
+    tag = f["rel"].replace("/", "_")
+    return "\n".join(lines) + ("\n" if lines else "") + f"// comment of {tag}\n" + body + f"/* block of {tag} */\n"
 
 
 def spec_closure(files, idx_by_path, path, chain):
